@@ -29,6 +29,8 @@ def prebuild(ctx):
 
 HARNESSES = [
     dict(name="codec", src=["codec.c"], variant="asan", prebuild=prebuild, deadline={"quick": 120, "thorough": 1200}),
+    # free-running ThreadSanitizer twin: two threads, each with objects of its own (harness/common/twin.c; samples, decides nothing)
+    dict(name="own-objects-tsan", src=["../common/twin.c"], variant="tsan", cflags=["-DTWIN_C05", "-DVSX_FREE_RUNS=6"], deadline={"quick": 60, "thorough": 120}),
 ]
 ASSUMPTIONS = [
     "the vectorised path is the one the library selects on this AVX2 host; the portable path is source/encoding.c compiled a second time from the working tree without USE_SIMD_ENCODING",
